@@ -325,7 +325,7 @@ def gen_url_small_cases(ctx, thorough):
     """well-formed bodies <= 200 B x all 2-way splits (+ all 3-way in thorough / sampled in
     quick) + byte-by-byte"""
     rng = ctx.rng
-    nb = 150 if thorough else 70
+    nb = 500 if thorough else 70
     for i in range(nb):
         fields = gen_url_fields(rng, small=True)
         body = enc_url(rng, fields, style=i % 2)
@@ -373,7 +373,7 @@ def gen_url_staging_cases(ctx, thorough):
 
 def gen_url_big_cases(ctx, thorough):
     rng = ctx.rng
-    n = 600 if thorough else 150
+    n = 2500 if thorough else 150
     for i in range(n):
         fields = gen_url_fields(rng, small=False)
         if rng.random() < 0.5:
@@ -395,6 +395,11 @@ def gen_url_big_cases(ctx, thorough):
             exp = [(k, None, None, None, b"v")] if ok else None
             yield Case("url", bs, URLENC, [body], exp, "url-keylimit" if ok else "url-keytoolong")
             yield Case("url", bs, URLENC, random_split(rng, body, 4), exp, "url-keylimit" if ok else "url-keytoolong")
+            # the same limit on the path through PP_Callback (key and its terminator in one call)
+            body2 = k + b"=v&a=b"
+            exp2 = [(k, None, None, None, b"v"), (b"a", None, None, None, b"b")] if ok else None
+            yield Case("url", bs, URLENC, [body2], exp2, "url-keylimit" if ok else "url-keytoolong")
+            yield Case("url", bs, URLENC, [k[:7], k[7:] + b"=v&a=b"], exp2, "url-keylimit" if ok else "url-keytoolong")
 
 
 MAL_URL_ALPHA = list(b"a=&%+\n\r1fg\x00%=&")
@@ -402,7 +407,7 @@ MAL_URL_ALPHA = list(b"a=&%+\n\r1fg\x00%=&")
 
 def gen_url_malformed(ctx, thorough):
     rng = ctx.rng
-    n = 6000 if thorough else 1500
+    n = 40000 if thorough else 1500
     for i in range(n):
         body = rand_bytes(rng, rng.randint(1, 40), MAL_URL_ALPHA)
         if i % 7 == 0:
@@ -493,8 +498,8 @@ def mp_ctype(rng, boundary):
 
 def gen_mp_cases(ctx, thorough, nested):
     rng = ctx.rng
-    nsmall = (120 if thorough else 40) if not nested else (80 if thorough else 30)
-    nbig = (500 if thorough else 120) if not nested else (300 if thorough else 80)
+    nsmall = (400 if thorough else 40) if not nested else (250 if thorough else 30)
+    nbig = (2000 if thorough else 120) if not nested else (1200 if thorough else 80)
     tagp = "mpn" if nested else "mp"
     for i in range(nsmall + nbig):
         small = i < nsmall
@@ -553,7 +558,7 @@ def gen_mp_limits(ctx, thorough):
 
 def gen_mp_malformed(ctx, thorough):
     rng = ctx.rng
-    n = 8000 if thorough else 1500
+    n = 40000 if thorough else 1500
     frag = [b"--", b"B0", b"--B0", b"\r\n", b"\r", b"\n", b"--B0--", b"Content-Disposition: form-data; name=\"a\"",
             b"content-type: multipart/mixed; boundary=N1", b"Content-Type: multipart/mixed", b"--N1", b"--N1--",
             b"Content-Transfer-Encoding: binary", b"name=", b"\"", b"x", b"-", b"\x00", b": ", b"filename=\"f\"",
@@ -623,7 +628,8 @@ class Spec:
     props_module = "Mhd.Props.C15"
     lean_targets = ["Mhd.Props.C15", "drv_pp"]
     required_theorems = ["Mhd.C15.url_roundtrip_tokens", "Mhd.C15.url_every_call_accepts", "Mhd.C15.url_roundtrip",
-                         "Mhd.C15.url_split_independent"]
+                         "Mhd.C15.url_split_independent", "Mhd.C15.url_no_fault",
+                         "Mhd.C15.multipart_all_inputs_partial"]
     trusted_base = ["Lean 4 kernel", "axioms: propext, Classical.choice, Quot.sound at most (audited per theorem)",
                     "hand-written model lean/Mhd/Model/PP*.lean tied to postprocessor.c by this run's correspondence",
                     "tools/props/C15.py gen_pp (XBUF_SIZE, sizeof pp->xbuf, encoding names, minimum buffer regenerated)",
